@@ -1437,7 +1437,9 @@ class Crystal(object):
             return any(tup == ij and self.__isclose__(dx, v) for translist in lis for ij, v in translist)
 
         r2 = cutoff * cutoff
-        nmax = [int(np.round(np.sqrt(r2/self.metric[i, i]))) + 1
+        # |n_i| <= cutoff * |row i of the inverse lattice| bounds the lattice coordinates of any vector shorter than the cutoff
+        # (the lattice vector lengths alone do not, for cells that are not orthogonal); +1 for the offset between basis sites
+        nmax = [int(np.ceil(np.sqrt(r2*np.dot(self.invlatt[i], self.invlatt[i])))) + 1
                 for i in range(self.dim)]
         nranges = [range(-n, n+1) for n in nmax]
         supervect = [np.array(ntup) for ntup in itertools.product(*nranges)]
